@@ -69,6 +69,7 @@ def run_prop(prop, tier, seed, replay=None, make_cases=None):
     if prop == 'C01':
         for i, c in enumerate(cases):
             c.with_type = (i % 2 == 0)      # every other case: the trait also has an associated type item
+            c.unsafe_trait = (i % 5 == 3)   # every fifth: `unsafe trait` + `unsafe impl` blocks
     obs = pe.observe(cases, with_values=(prop == 'C01'))
     for c, o in zip(cases, obs):
         stats['cases'] += 1
